@@ -58,7 +58,7 @@ def run_suite(ctx, only_best=False):
     ctx.suites_run.append(SUITE)
     rng = ctx.rng
     ctx.rule("populations: all cost vectors of length 1..L over the alphabet {-inf,-1,0,0,2.5,+inf} (ties included; L=4 quick, 6 thorough; "
-             "multisets enumerated with every order) plus random sizes up to 200; × all n in 0..size × both directions × every helper and combinator; "
+             "multisets enumerated with every order) plus random sizes up to 200, plus vectors over pools of neighbouring doubles (0 / 1e-17 / 2e-17, ±5e-324, 1 ± 1 ulp, −1 ± 1 ulp, 1e16 + {0,2,4}, 1e308 / next / inf, 0.1+0.2 / 0.3); × all n in 0..size × both directions × every helper and combinator; "
              "non-trivial = population of size ≥ 2 (size-1 cases counted as trivial); distinct by (helper, direction, cost vector, n)")
     L = 6 if ctx.thorough else 4
     pops = []
@@ -68,6 +68,15 @@ def run_suite(ctx, only_best=False):
     for _ in range(40 if not ctx.thorough else 400):
         k = rng.choice([7, 10, 25, 50, 200])
         pops.append([rng.choice([rng.uniform(-5, 5), float(rng.randrange(-3, 4)), math.inf, -math.inf]) for _ in range(k)])
+    # numerically adversarial neighbours: distinct doubles that any lossy ranking key (a fitness, a rounded or shifted cost) would merge
+    na = math.nextafter
+    for pool in ([0.0, 1e-17, 2e-17, 3e-17], [5e-324, 0.0, -5e-324, 1e-300], [1.0, na(1.0, 2.0), na(1.0, 0.0), na(na(1.0, 2.0), 2.0)],
+                 [-1.0, na(-1.0, -2.0), na(-1.0, 0.0), -1.0], [1e16, 1e16 + 2, 1e16 + 4, -1e16 - 2], [1e308, na(1e308, math.inf), -1e308, math.inf],
+                 [0.1 + 0.2, 0.3, na(0.3, 0.0), 0.30000000000000004]):
+        for k in (2, 3):
+            pops.extend(list(c) for c in itertools.product(pool, repeat=k))
+        for _ in range(6 if not ctx.thorough else 40):
+            pops.append([rng.choice(pool) for _ in range(rng.choice([4, 5, 6, 9]))])
     C = Cases(ctx)
     for costs in pops:
         agents = [make_agent(i, c) for i, c in enumerate(costs)]
